@@ -40,31 +40,43 @@ Lemma meets_nice k pid p v exp : kget pid k = Some p ->
   spec_req pid (Nice v) k = Some exp -> run_req pid (Nice v) k = exp.
 Proof.
   intros Hg. unfold spec_req, spec_get, run_req, nice. rewrite Hg. destruct v as [v|].
-  - destruct ((-20 <=? v) && (v <=? 19)) eqn:E; [|discriminate]. intros [= <-].
-    apply andb_split in E. destruct E as [E1 E2]. apply Z.leb_le in E1, E2.
+  - destruct ((-20 <=? v) && (v <=? 19) && ((p_nice p <=? v) || can_nice k p v)) eqn:E; [|discriminate]. intros [= <-].
+    apply andb_split in E. destruct E as [E E3]. apply andb_split in E. destruct E as [E1 E2]. apply Z.leb_le in E1, E2.
     unfold c_setpriority, fits_int, sys_setpriority. rewrite Hg.
     replace ((-2147483648 <=? v) && (v <=? 2147483647)) with true
       by (symmetry; apply andb_true_iff; split; apply Z.leb_le; lia).
     unfold clamp_nice.
     replace (v <? -20) with false by (symmetry; apply Z.ltb_ge; lia).
-    replace (19 <? v) with false by (symmetry; apply Z.ltb_ge; lia). reflexivity.
+    replace (19 <? v) with false by (symmetry; apply Z.ltb_ge; lia).
+    replace ((v <? p_nice p) && negb (can_nice k p v)) with false; [reflexivity|].
+    symmetry. apply orb_true_iff in E3. destruct E3 as [E3|E3].
+    + apply Z.leb_le in E3. replace (v <? p_nice p) with false by (symmetry; apply Z.ltb_ge; lia). reflexivity.
+    + rewrite E3. apply andb_false_r.
   - intros [= <-]. unfold c_getpriority, libc_getpriority. rewrite Hg. reflexivity.
 Qed.
 
 (* ------------------------------------------------ ionice *)
-Lemma ionice_get_ok k pid p : kget pid k = Some p -> 0 <= p_ioprio p < 32768 ->
-  ionice_get pid k = Val (RPair (p_ioprio p / 8192) (p_ioprio p mod 8192)).
+Lemma reported_range k p : -20 <= p_nice p <= 19 -> 0 <= p_ioprio p < 32768 -> 0 <= reported_ioprio k p < 32768.
+Proof.
+  intros Hn Hr. unfold reported_ioprio. destruct (k_ioget_effective k && (Z.shiftr (p_ioprio p) 13 =? 0)); [|exact Hr].
+  assert (0 <= (p_nice p + 20) / 5 <= 7).
+  { split; [apply Z.div_pos; lia|]. apply Z.lt_succ_r. apply Z.div_lt_upper_bound; lia. }
+  lia.
+Qed.
+
+Lemma ionice_get_ok k pid p : kget pid k = Some p -> 0 <= reported_ioprio k p < 32768 ->
+  ionice_get pid k = Val (RPair (reported_ioprio k p / 8192) (reported_ioprio k p mod 8192)).
 Proof.
   intros Hg Hr. unfold ionice_get, sys_ioprio_get, ioprio_unpack. rewrite Hg.
-  destruct (unpack_arith (p_ioprio p)) as [-> ->].
-  assert (0 <= p_ioprio p / 8192 <= 3).
+  destruct (unpack_arith (reported_ioprio k p)) as [-> ->].
+  assert (0 <= reported_ioprio k p / 8192 <= 3).
   { split; [apply Z.div_pos; lia|]. apply Z.lt_succ_r. apply Z.div_lt_upper_bound; lia. }
-  replace ((0 <=? p_ioprio p / 8192) && (p_ioprio p / 8192 <=? 3)) with true
+  replace ((0 <=? reported_ioprio k p / 8192) && (reported_ioprio k p / 8192 <=? 3)) with true
     by (symmetry; apply andb_true_iff; split; apply Z.leb_le; lia).
   reflexivity.
 Qed.
 
-Lemma meets_ionice k pid p c v exp : kget pid k = Some p -> 0 <= p_ioprio p < 32768 ->
+Lemma meets_ionice k pid p c v exp : kget pid k = Some p -> 0 <= reported_ioprio k p < 32768 ->
   spec_req pid (Ionice c v) k = Some exp -> run_req pid (Ionice c v) k = exp.
 Proof.
   intros Hg Hr. unfold spec_req, spec_get, run_req, ionice. rewrite Hg. destruct c as [c|].
@@ -78,21 +90,23 @@ Proof.
   rewrite Hsw. clear Hsw.
   destruct (((c =? 0) || (c =? 3)) && negb (lvl =? 0)) eqn:Eidle.
   { intros [= <-]. reflexivity. }
-  destruct (((c =? 0) || (c =? 3)) && match v with Some _ => true | None => false end); [discriminate|].
-  destruct ((0 <=? c) && (c <=? 3)) eqn:Ec; [|discriminate]. intros [= <-].
+  destruct ((0 <=? c) && (c <=? 3) && (negb (c =? 1) || k_cap_admin k || k_cap_nice k)) eqn:Ec; [|discriminate].
+  intros [= <-].
+  apply andb_split in Ec. destruct Ec as [Ec Eperm].
+  rewrite Ec. cbn [negb].
   apply orb_false_iff in Erng. destruct Erng as [R1 R2]. apply Z.ltb_ge in R1, R2.
   apply andb_split in Ec. destruct Ec as [C1 C2]. apply Z.leb_le in C1, C2.
   assert (H03 : c = 0 \/ c = 3 -> lvl = 0).
   { intros Hc. apply andb_false_iff in Eidle. destruct Eidle as [E|E].
     - apply orb_false_iff in E. destruct E as [E1 E2]. apply Z.eqb_neq in E1, E2. lia.
     - apply negb_false_iff in E. apply Z.eqb_eq in E. exact E. }
-  destruct (ioprio_valid_ok c lvl) as [Hp Hv]; [lia|lia|exact H03|].
+  destruct (ioprio_valid_ok c lvl) as [Hp [Hv Hs]]; [lia|lia|exact H03|].
   unfold c_ioprio_set, fits_int.
   replace ((-2147483648 <=? c) && (c <=? 2147483647)) with true
     by (symmetry; apply andb_true_iff; split; apply Z.leb_le; lia).
   replace ((-2147483648 <=? lvl) && (lvl <=? 2147483647)) with true
     by (symmetry; apply andb_true_iff; split; apply Z.leb_le; lia).
-  cbn [andb]. rewrite Hp. unfold sys_ioprio_set. rewrite Hg, Hv. reflexivity.
+  cbn [andb]. rewrite Hp. unfold sys_ioprio_set, ioprio_perm. rewrite Hg, Hs, Eperm, Hv. reflexivity.
 Qed.
 
 (* ------------------------------------------------ rlimit *)
@@ -102,19 +116,37 @@ Proof.
   apply Z.leb_le in A. apply Z.ltb_lt in B. apply andb_true_iff. split; apply Z.leb_le; lia.
 Qed.
 
-Lemma meets_rlimit k pid p res lim exp : kget pid k = Some p -> pid <> 0 ->
+Lemma nth_nth_error {A} (l : list A) n d x : nth_error l n = Some x -> nth n l d = x.
+Proof. revert n. induction l as [|a r IH]; intros [|n] H; cbn in *; try discriminate; [congruence|apply IH; exact H]. Qed.
+
+Lemma meets_rlimit k pid p res lim exp : kget pid k = Some p -> pid <> 0 -> length (p_rlim p) = 16%nat ->
   spec_req pid (Rlimit res lim) k = Some exp -> run_req pid (Rlimit res lim) k = exp.
 Proof.
-  intros Hg Hp. unfold spec_req, spec_get, run_req, rlimit. rewrite Hg.
+  intros Hg Hp Hlen. unfold spec_req, spec_get, run_req, rlimit. rewrite Hg.
   replace (pid =? 0) with false by (symmetry; apply Z.eqb_neq; exact Hp).
   destruct lim as [l|].
   - destruct l as [|s [|h [|x r]]]; try (intros [= <-]; reflexivity).
-    destruct (res_ok res && fits_long s && fits_long h && (u64 s <=? u64 h)) eqn:E; [|discriminate].
+    match goal with |- (if ?b then _ else _) = _ -> _ => destruct b eqn:E; [|discriminate] end.
     intros [= <-].
+    apply andb_split in E. destruct E as [E E6]. apply andb_split in E. destruct E as [E E5].
     apply andb_split in E. destruct E as [E E4]. apply andb_split in E. destruct E as [E E3].
     apply andb_split in E. destruct E as [E1 E2].
     cbn [length Nat.eqb negb]. unfold py_prlimit. rewrite (res_ok_fits res E1), E1, E2, E3. cbn [negb andb].
-    unfold sys_prlimit_set. rewrite Hg, E1, E4. reflexivity.
+    unfold sys_prlimit_set. rewrite Hg, E1. cbn [negb].
+    apply Z.leb_le in E4. replace (u64 h <? u64 s) with false by (symmetry; apply Z.ltb_ge; lia).
+    replace ((res =? RLIMIT_NOFILE) && (k_nr_open k <? u64 h)) with false.
+    2: { symmetry. apply orb_true_iff in E5. destruct E5 as [E5|E5].
+         - apply negb_true_iff in E5. rewrite E5. reflexivity.
+         - apply Z.leb_le in E5. replace (k_nr_open k <? u64 h) with false by (symmetry; apply Z.ltb_ge; lia). apply andb_false_r. }
+    assert (Hlt : (Z.to_nat res < length (p_rlim p))%nat).
+    { unfold res_ok, RLIM_NLIMITS in E1. apply andb_split in E1. destruct E1 as [A B]. apply Z.leb_le in A. apply Z.ltb_lt in B. rewrite Hlen. lia. }
+    destruct (nth_error (p_rlim p) (Z.to_nat res)) as [[os om]|] eqn:En.
+    2: { apply nth_error_None in En. lia. }
+    rewrite (nth_nth_error _ _ (0, 0) _ En) in E6. cbn [snd] in E6.
+    replace ((om <? u64 h) && negb (k_cap_resource k)) with false; [reflexivity|].
+    symmetry. apply orb_true_iff in E6. destruct E6 as [E6|E6].
+    + apply Z.leb_le in E6. replace (om <? u64 h) with false by (symmetry; apply Z.ltb_ge; lia). reflexivity.
+    + rewrite E6. apply andb_false_r.
   - destruct (res_ok res) eqn:E1; [|discriminate].
     destruct (nth_error (p_rlim p) (Z.to_nat res)) as [[s h]|] eqn:En; [|discriminate].
     intros [= <-]. unfold py_prlimit. rewrite (res_ok_fits res E1), E1. cbn [negb].
